@@ -15,6 +15,8 @@ import multiprocessing as mp
 import os
 import random
 import sys
+import threading
+import _thread
 import time
 import traceback
 
@@ -47,8 +49,19 @@ def eval_cases(mod, cases):
     """Run impl + Lean on a list of cases; return list of (case, impl_out, replies, verdict)."""
     impl_outs, reqs, spans = [], [], []
     for c in cases:
+        # watchdog: an implementation call that never answers (a looping mutant inside an `except Exception` of a
+        # harness module, say) would otherwise hang the pool worker and the whole run
+        wd = threading.Timer(CASE_TIMEOUT_S, _thread.interrupt_main)
+        wd.daemon = True
         try:
-            io = mod.impl(c)
+            wd.start()
+            try:
+                io = mod.impl(c)
+            finally:
+                wd.cancel()
+        except KeyboardInterrupt:
+            io = {'harness_exc': 'NonTermination', 'msg': f'no answer from the implementation within {CASE_TIMEOUT_S}s',
+                  'tb': ''}
         except Exception as e:  # the harness itself failing on the implementation side
             io = {'harness_exc': type(e).__name__, 'msg': str(e)[:300], 'tb': traceback.format_exc()[-1500:]}
         impl_outs.append(io)
@@ -68,6 +81,8 @@ def eval_cases(mod, cases):
         out.append((c, io, rep, v))
     return out
 
+
+CASE_TIMEOUT_S = float(os.environ.get('VERIF_CASE_TIMEOUT_S', '600'))
 
 _STOP = None   # multiprocessing.Event shared with the workers (set => skip remaining chunks)
 
